@@ -61,6 +61,15 @@ func (r *round2) StoreBroadcastMessage(msg round.Message) error {
 		return fmt.Errorf("commitment: %w", err)
 	}
 
+	// The polynomial must have the shape everyone expects (as in the cmp keygen): degree t, and a zero constant
+	// exactly when refreshing. Otherwise evaluating or summing the polynomials fails later on.
+	if body.Phi_i.Degree() != r.threshold {
+		return fmt.Errorf("party %s sent a polynomial of the wrong degree", from)
+	}
+	if body.Phi_i.IsConstant != r.refresh {
+		return fmt.Errorf("party %s sent a polynomial with the wrong kind of constant", from)
+	}
+
 	// These steps come from Figure 1, Round 1 of the Frost paper
 
 	// 5. "Upon receiving ϕₗ, σₗ from participants 1 ⩽ l ⩽ n, participant
